@@ -516,7 +516,12 @@ class RPCSession(SessionBase):
                 # The handler's result cannot be encoded; the caller still gets a response
                 self.logger.exception(f'cannot encode the result of {request}')
                 result = RPCError(JSONRPC.INTERNAL_ERROR, 'internal server error')
-                message = request.send_result(result)
+                try:
+                    message = request.send_result(result)
+                except ProtocolError:
+                    # Not even that can be encoded, as it echoes a request ID that is nested
+                    # too deeply; the session must survive so there is no reply
+                    message = None
             if message:
                 await self._send_message(message)
         if isinstance(result, Exception):
